@@ -392,12 +392,12 @@ const MARGIN: usize = 96;
 struct Ctx {
     plain: Arena,
     guard: Arena,
-    heap: Vec<u8>,
+    heap: mcore::arena::HeapSlice,
 }
 
 impl Ctx {
     fn new() -> Ctx {
-        Ctx { plain: Arena::plain(4), guard: Arena::guarded(1), heap: vec![] }
+        Ctx { plain: Arena::plain(4), guard: Arena::guarded(1), heap: mcore::arena::HeapSlice::empty() }
     }
     fn place(&mut self, place: Place, a: usize, data: &[u8], fill: u8) -> &[u8] {
         match place {
@@ -407,15 +407,7 @@ impl Ctx {
                 self.guard.place_fill(off, data, fill, fill, MARGIN)
             }
             Place::GuardStart => self.guard.place_fill(0, data, fill, fill, MARGIN),
-            Place::Heap => {
-                // a fresh allocation of exactly a + len bytes
-                let mut v: Vec<u8> = Vec::with_capacity(a + data.len());
-                v.extend(std::iter::repeat(fill).take(a));
-                v.extend_from_slice(data);
-                assert_eq!(v.capacity(), a + data.len());
-                self.heap = v;
-                &self.heap[a..]
-            }
+            Place::Heap => self.heap.place(a, data, fill),
         }
     }
 }
@@ -434,8 +426,9 @@ fn check_shape(
     place: Place,
     a: usize,
     order: u64,
+    fill: u8,
 ) {
-    let hay: &[u8] = ctx.place(place, a, data, nd[0]);
+    let hay: &[u8] = ctx.place(place, a, data, fill);
     // SAFETY of aliasing: `hay` borrows ctx's arena; nothing below touches ctx.
     let len = hay.len();
     r.states += 1;
@@ -532,6 +525,8 @@ fn check_shape(
                     a.to_string(),
                     "--place".into(),
                     place.name().into(),
+                    "--fill".into(),
+                    format!("{:02x}", fill),
                 ]
             };
             if let Some((class, what)) = problem {
@@ -553,7 +548,7 @@ fn check_shape(
                     detail: json!({
                         "class": class, "subject": subject.name(), "op": op.name(), "k": k,
                         "needles": hex(&nd[..k as usize]), "haystack": hex(data),
-                        "offset": a, "place": place.name(),
+                        "offset": a, "place": place.name(), "neighbour_fill": fill,
                         "expected": format!("{:?}", exp),
                     }),
                 });
@@ -594,6 +589,7 @@ fn run_full(
     nd: [u8; 3],
     other: u8,
 ) {
+    let real: Vec<Subject> = subjects.iter().copied().filter(|s| !matches!(s, Subject::Vn(_))).collect();
     for len in lens {
         let n = enumr::pow(k as u64 + 1, len as u32);
         let rep = par::run_chunks(n, 2048, |lo, hi, r| {
@@ -602,7 +598,16 @@ fn run_full(
             enumr::for_strings(k + 1, len, lo, hi, |idx, roles| {
                 roles_to_bytes(roles, other, nd, &mut data);
                 for a in 0..aligns {
-                    check_shape(&mut ctx, r, subjects, k, ops, nd, &data, Place::Plain, a, idx);
+                    // neighbours = needle byte (an out-of-slice read that is
+                    // USED turns into a wrong answer) ...
+                    check_shape(&mut ctx, r, subjects, k, ops, nd, &data, Place::Plain, a, idx, nd[0]);
+                    // ... and neighbours = filler (a search that wrongly
+                    // DEPENDS on seeing a needle outside the slice fails).
+                    // VN loads are monitored exactly, so only the real code
+                    // needs the second placement.
+                    if !real.is_empty() {
+                        check_shape(&mut ctx, r, &real, k, ops, nd, &data, Place::Plain, a, idx, other);
+                    }
                 }
             });
         });
@@ -628,6 +633,7 @@ fn run_sparse(
     nd: [u8; 3],
     other: u8,
 ) {
+    let real: Vec<Subject> = subjects.iter().copied().filter(|s| !matches!(s, Subject::Vn(_))).collect();
     let rep = par::run_items(lens, |_, &len, r| {
         let mut ctx = Ctx::new();
         let mut data = vec![0u8; len];
@@ -636,7 +642,10 @@ fn run_sparse(
             for &place in places {
                 let al = if place == Place::GuardEnd || place == Place::GuardStart { 1 } else { aligns };
                 for a in 0..al {
-                    check_shape(ctx, r, subjects, k, ops, nd, data, place, a, order);
+                    check_shape(ctx, r, subjects, k, ops, nd, data, place, a, order, nd[0]);
+                    if !real.is_empty() && place != Place::GuardStart {
+                        check_shape(ctx, r, &real, k, ops, nd, data, place, a, order, other);
+                    }
                 }
             }
         };
@@ -699,10 +708,10 @@ fn run_swar_values(total: &mut Report, ops: &[Op], needles: &[u8], deep: bool) {
                     data[i] = nb ^ D[ds[i] as usize];
                 }
                 let nd = [nb, nb, nb];
-                check_shape(&mut ctx, r, &[Subject::Swar], 1, ops, nd, &data, Place::Plain, 0, idx);
+                check_shape(&mut ctx, r, &[Subject::Swar], 1, ops, nd, &data, Place::Plain, 0, idx, nb);
                 if deep {
-                    check_shape(&mut ctx, r, &[Subject::Swar], 2, ops, nd, &data, Place::Plain, 0, idx);
-                    check_shape(&mut ctx, r, &[Subject::Swar], 3, ops, nd, &data, Place::Plain, 0, idx);
+                    check_shape(&mut ctx, r, &[Subject::Swar], 2, ops, nd, &data, Place::Plain, 0, idx, nb);
+                    check_shape(&mut ctx, r, &[Subject::Swar], 3, ops, nd, &data, Place::Plain, 0, idx, nb);
                 }
             }
         });
@@ -775,7 +784,10 @@ fn parse_ops(s: &str) -> Vec<Op> {
 }
 
 fn main() {
-    mcore::install_quiet_panic_hook();
+    mcore::run_main(real_main);
+}
+
+fn real_main() {
     let args = Args::parse();
     let mode = args.pos.first().map(|s| s.as_str()).unwrap_or("help").to_string();
     let out = args.str("out", "-");
@@ -794,11 +806,12 @@ fn main() {
         let data = if h == "-" { vec![] } else { unhex(&h) };
         let a = args.num("off", 0) as usize;
         let place = Place::parse(&args.str("place", "plain"));
+        let fill = u8::from_str_radix(&args.str("fill", &format!("{:02x}", nd[0])), 16).unwrap();
         let mut outs = vec![];
         for _ in 0..2 {
             let mut ctx = Ctx::new();
             let mut r = Report::default();
-            check_shape(&mut ctx, &mut r, &[subject], k, &[op], nd, &data, place, a, 0);
+            check_shape(&mut ctx, &mut r, &[subject], k, &[op], nd, &data, place, a, 0, fill);
             outs.push(r);
         }
         assert_eq!(
@@ -930,6 +943,69 @@ fn main() {
                 run_sparse(&mut total, &subj_s, k, &ops, &lens, aligns, 1, 0, &[], &[Place::Heap], nd, other);
             }
             bounds.insert("heap".into(), json!({"max_len": lmax, "shard": shard, "matches": "none and each single position", "block": "exactly a+len bytes, a in 0..aligns"}));
+        }
+        // Long haystacks with periodic / dense matches around the sizes at
+        // which a per-lane accumulator of 8 or 16 bits would wrap.
+        "long" => {
+            let subj_s: Vec<Subject> = args.str("subjects", "swar,sse2,avx2,top").split(',').map(Subject::parse).collect();
+            let mut lens: Vec<usize> = vec![];
+            for v in [8usize, 16, 32, 64, 128] {
+                for u in [255usize, 256, 257] {
+                    for d in [0usize, 1, v - 1, v, v + 1, 2 * v + 3] {
+                        lens.push(v * u + d);
+                    }
+                }
+            }
+            if thorough {
+                for v in [8usize, 16, 32] {
+                    lens.push(v * 65536 + v + 1);
+                }
+            }
+            lens.sort();
+            lens.dedup();
+            let rep = par::run_items(&lens, |_, &len, r| {
+                let mut big = Arena::plain(len / 4096 + 3);
+                let mut data = vec![other; len];
+                let mut order = 0u64;
+                for period in [1usize, 2, 3, 8, 16, 32, 64] {
+                    for phase in 0..period.min(8) {
+                        for (i, b) in data.iter_mut().enumerate() {
+                            *b = if i % period == phase { nd[0] } else { other };
+                        }
+                        for a in [0usize, 1, 9] {
+                            let hay = big.place_fill(2048 + a, &data, other, other, 64);
+                            order += 1;
+                            r.states += 1;
+                            for &subject in &subj_s {
+                                for &op in &ops {
+                                    r.evaluations += 1;
+                                    let exp = expected(1, op, nd, hay);
+                                    let got = guarded(|| call(subject, 1, op, nd, hay));
+                                    r.bump(&format!("calls/{}", subject.name()));
+                                    r.nontrivial += 1;
+                                    let bad = match &got {
+                                        Err(m) => Some(("panic", format!("panicked: {}", m))),
+                                        Ok(o) if o.res != exp => Some(("wrong_result", format!("returned {:?}, reference {:?}", o.res, exp))),
+                                        Ok(o) => o.raw_problem.clone().map(|p| ("raw_form", p)),
+                                    };
+                                    if let Some((class, what)) = bad {
+                                        r.violation(Violation {
+                                            class: class.into(),
+                                            key: ((len as u64) << 16) | order,
+                                            what: format!("[{}] {} {}1 on a {}-byte haystack with a match every {} bytes (phase {}), offset {}: {}", class, subject.name(), op.name(), len, period, phase, a, what),
+                                            replay_argv: vec!["long".into(), "--subjects".into(), subject.name(), "--ops".into(), op.name().into()],
+                                            detail: json!({"class": class, "subject": subject.name(), "op": op.name(), "len": len, "period": period, "phase": phase, "offset": a}),
+                                        });
+                                    }
+                                }
+                            }
+                        }
+                    }
+                }
+                r.sample(len as u64, || json!({"len": len, "patterns": "a match every p bytes for p in {1,2,3,8,16,32,64} at every phase < min(p,8)", "offsets": [0, 1, 9]}));
+            });
+            total.merge(rep);
+            bounds.insert("long".into(), json!({"lens": lens.len(), "max_len": lens.last(), "rule": "V*{255,256,257} + {0,1,V-1,V,V+1,2V+3} for V in {8,16,32,64,128}"}));
         }
         "raw-edges" => {
             run_raw_edges(&mut total);
